@@ -16,7 +16,7 @@ ASSUMPTIONS = ["segment lengths are taken from seg.length() (C06 owns their corr
                "paths have positive total length; the leading segment is not zero-length"]
 CONFIGS = ['scipy']
 BUDGET = {'quick': 6000, 'thorough': 150000}
-REQUIRED = ['T:boundary', 'T:near_one', 'zero_length_segment', 'discontinuous', 'closed', 'T:interior']
+REQUIRED = ['via_reversed', 'near_miss_joint', 'T:boundary', 'T:near_one', 'zero_length_segment', 'discontinuous', 'closed', 'T:interior']
 
 EPS = 2.0 ** -52
 
@@ -29,14 +29,39 @@ def strategy(tier, config):
         ts = draw(st.lists(st.one_of(gen.floats_in(0.0, 1.0), st.sampled_from([0.0, 1.0, 0.5])), min_size=2, max_size=4))
         # boundary selectors: (segment index fraction, ulp offset)
         bsel = draw(st.lists(st.tuples(st.integers(0, 7), st.integers(-2, 2)), min_size=2, max_size=5))
-        return {'segs': specs, 'ts': ts, 'bsel': [list(b) for b in bsel]}
+        # near-miss joints: the next segment starts a hair away from where the previous one ended
+        sc = gen.spec_size(specs)
+        for i in range(1, len(specs)):
+            if draw(st.integers(0, 9)) == 0 and specs[i][0] != 'A':
+                d = draw(st.sampled_from(['ulp', 1e-12, 1e-9, 1e-6]))
+                x = specs[i][1][0]
+                nx = gen.nextafter_k(x, 1) if d == 'ulp' else x + d * sc
+                if nx != x and len({tuple(p) for p in specs[i][1:]}) > 1:
+                    specs[i][1] = [nx, specs[i][1][1]]
+        via = draw(st.sampled_from(['direct', 'direct', 'reversed_after_queries']))
+        return {'segs': specs, 'ts': ts, 'bsel': [list(b) for b in bsel], 'via': via}
     return s()
 
 
 def check(case, ctx):
     from svgpathtools import Path
     specs = case['segs']
-    path = ctx.lib('build', gen.build_path, specs)
+    for sp in specs:
+        if sp[0] in 'LA' and sp[1] == sp[-1] and sp[0] == 'A':
+            ctx.discard('zero-chord arc')
+    if case.get('via') == 'reversed_after_queries':
+        # the path under test is obtained from another path whose caches were already filled
+        p0 = ctx.lib('build', gen.build_path, specs)
+        ctx.lib('warm', p0.length)
+        ctx.lib('warm', p0.point, 0.3)
+        path = ctx.lib('reversed', p0.reversed)
+        specs = [_rev_spec(sp) for sp in reversed(specs)]
+        ctx.count('via_reversed')
+        for a, b in zip(path, specs):
+            ctx.check(gen.seg_spec_of(a)[:2] == b[:2] and gen.seg_spec_of(a)[-1] == b[-1], 'reversed/segments',
+                      'reversed() segment %r, expected %r' % (a, b))
+    else:
+        path = ctx.lib('build', gen.build_path, specs)
     n = len(path)
     lens = [ctx.lib('seg.length', seg.length) for seg in path]
     if not all(math.isfinite(l) and l >= 0 for l in lens):
@@ -53,6 +78,8 @@ def check(case, ctx):
         ctx.count('zero_length_segment')
     if not cont:
         ctx.count('discontinuous')
+    if any(a[-1] != b[1] and abs(gen.C(a[-1]) - gen.C(b[1])) <= 1e-5 * gen.spec_size(specs) for a, b in zip(specs, specs[1:])):
+        ctx.count('near_miss_joint')
     if gen.path_is_closed(specs):
         ctx.count('closed')
     size = gen.spec_size(specs)
@@ -141,3 +168,9 @@ def check(case, ctx):
 def _pt_tol(seg_len, frac, pos):
     # |dP/dt| <~ 4*len ; t is determined to ~8 eps / frac
     return 64 * EPS * (4 * seg_len / max(frac, 1e-300)) + 64 * EPS * pos
+
+
+def _rev_spec(sp):
+    if sp[0] == 'A':
+        return ['A', sp[6], sp[2], sp[3], sp[4], 1 - sp[5], sp[1]]
+    return [sp[0]] + list(reversed(sp[1:]))
